@@ -159,6 +159,22 @@ def _common(e):
     return [("description", e.desc or None), ("sinceVersion", e.since or None), ("deprecated", e.depr)]
 
 
+# SBE type lookup is case-insensitive: when CASE_VARIANT is a SplitMix64 state, every reference to a
+# NAMED type (field type, dimensionType, data type, ref type, encodingType, headerType) is rendered with
+# a different letter case than its definition (the AST keeps the defining spelling)
+CASE_VARIANT = None
+
+
+def refname(name):
+    if CASE_VARIANT is None or name is None or name in PRIMS:
+        return name
+    k = CASE_VARIANT.below(4)
+    if k == 0:
+        return name
+    alt = name.swapcase() if k == 1 else (name.upper() if k == 2 else name.lower())
+    return alt if alt not in PRIMS else name
+
+
 def enc_xml(t, ind="    "):
     if t.kind == "type":
         a = _attrs([("name", t.name), ("primitiveType", t.prim),
@@ -172,7 +188,7 @@ def enc_xml(t, ind="    "):
         return "%s<type%s/>\n" % (ind, a)
     if t.kind in ("enum", "set"):
         tag, vtag = ("enum", "validValue") if t.kind == "enum" else ("set", "choice")
-        x = "%s<%s%s>\n" % (ind, tag, _attrs([("name", t.name), ("encodingType", t.prim), ("offset", t.offset)] + _common(t)))
+        x = "%s<%s%s>\n" % (ind, tag, _attrs([("name", t.name), ("encodingType", refname(t.prim)), ("offset", t.offset)] + _common(t)))
         for v in t.values:
             x += "%s  <%s%s>%s</%s>\n" % (ind, vtag, _attrs([("name", v.name)] + _common(v)), xml_text(v.value), vtag)
         return x + "%s</%s>\n" % (ind, tag)
@@ -183,7 +199,7 @@ def enc_xml(t, ind="    "):
             x += enc_xml(m, ind + "  ")
         return x + "%s</composite>\n" % ind
     if t.kind == "ref":
-        return "%s<ref%s/>\n" % (ind, _attrs([("name", t.name), ("type", t.ref), ("offset", t.offset),
+        return "%s<ref%s/>\n" % (ind, _attrs([("name", t.name), ("type", refname(t.ref)), ("offset", t.offset),
                                               ("sinceVersion", t.since or None), ("deprecated", t.depr)]))
     raise ValueError(t.kind)
 
@@ -191,21 +207,30 @@ def enc_xml(t, ind="    "):
 def level_xml(lv, ind):
     x = ""
     for f in lv.fields:
-        x += "%s<field%s/>\n" % (ind, _attrs([("name", f.name), ("id", f.id), ("type", f.type_name),
+        x += "%s<field%s/>\n" % (ind, _attrs([("name", f.name), ("id", f.id), ("type", refname(f.type_name)),
                                               ("offset", f.offset), ("presence", f.presence),
                                               ("valueRef", f.value_ref)] + _common(f)))
     for g in lv.groups:
-        x += "%s<group%s>\n" % (ind, _attrs([("name", g.name), ("id", g.id), ("dimensionType", g.dim),
+        x += "%s<group%s>\n" % (ind, _attrs([("name", g.name), ("id", g.id), ("dimensionType", refname(g.dim)),
                                               ("blockLength", g.block_length),
                                               ("semanticType", g.semtype or None)] + _common(g)))
         x += level_xml(g, ind + "  ")
         x += "%s</group>\n" % ind
     for d in lv.data:
-        x += "%s<data%s/>\n" % (ind, _attrs([("name", d.name), ("id", d.id), ("type", d.type_name)] + _common(d)))
+        x += "%s<data%s/>\n" % (ind, _attrs([("name", d.name), ("id", d.id), ("type", refname(d.type_name))] + _common(d)))
     return x
 
 
-def schema_to_xml(s):
+def schema_to_xml(s, case_variant_seed=None):
+    global CASE_VARIANT
+    CASE_VARIANT = SplitMix64(case_variant_seed) if case_variant_seed is not None else None
+    try:
+        return _schema_to_xml(s)
+    finally:
+        CASE_VARIANT = None
+
+
+def _schema_to_xml(s):
     x = ('<?xml version="1.0" encoding="UTF-8"?>\n<sbe:messageSchema xmlns:sbe="http://fixprotocol.io/2016/sbe"%s>\n<types>\n'
          % _attrs([("package", s.package), ("id", s.id), ("version", s.version),
                    ("semanticVersion", s.semver or None), ("description", s.desc or None),
